@@ -69,6 +69,10 @@ type Plan struct {
 	StateKeys    int     `json:"state_keys"`    // number of distinct keys state blocks operate on
 	ClonerPct    int     `json:"cloner_pct"`    // percent of state values that are Cloner values
 	MisbehavePct int     `json:"misbehave_pct"` // percent of action/predicate invocations that write to c.state
+	// ScribblePct: percent of action invocations that change the bytes of their
+	// label values in place (upper-casing a matched keyword where it stands: the
+	// bytes are the caller's own input)
+	ScribblePct int `json:"scribble_pct,omitempty"`
 	Faults       []Fault `json:"faults,omitempty"`
 	MaxEvents    int     `json:"max_events"`
 	// NestedPct: percent of action invocations that make a re-entrant Parse call
@@ -565,6 +569,17 @@ func Act(gs map[string]any, site, line, col, off int, text []byte, st map[string
 	}
 	if c.Plan.Misbehaves(site, n) {
 		misbehave(st, site, n)
+	}
+	if c.Plan.ScribblePct > 0 && int(H(c.Plan.Seed, site, n, 9)%100) < c.Plan.ScribblePct {
+		for _, l := range labels {
+			if b, ok := l.([]byte); ok {
+				for i, ch := range b {
+					if ch >= 'a' && ch <= 'z' {
+						b[i] = ch - 'a' + 'A'
+					}
+				}
+			}
+		}
 	}
 	var v any = &Node{Site: site, N: n, Text: string(text)}
 	if c.Plan.NilValue(site, n) {
